@@ -9,13 +9,6 @@ ASSUMPTIONS = ["release-mode (wrapping) integer semantics",
                "DFT-domain products are exact inside the backend's magnitude domain (C07)"]
 TRUSTED = ["ChaCha8 stream and rand_distr::Normal are inputs of the model (their output is replayed, not modelled)"]
 def classify(record):
-    """known class: a secret-key encryption (GLWE 1001 / LWE 1002 / compressed 1004) given a plaintext that declares a radix
-    different from the ciphertext's (ps[7] != ps[2])"""
-    try:
-        code, ps = record.split("#")[:2]
-        p = [int(x, 16) for x in ps.split()]
-        if int(code) in (1001, 1002, 1004) and p[7] != p[2]:
-            return "sk_encrypt.plaintext_radix_ignored"
-    except Exception:
-        pass
+    """no open class: `sk_encrypt.plaintext_radix_ignored` was repaired by b0d4f7c (the sk paths now assert pt.base2k == ct.base2k;
+    the model returns None for such calls and the correspondence check matches the panic)"""
     return None
